@@ -48,7 +48,9 @@ class Refuse(Exception):
 
 
 COQTY = {'Z': 'Z', 'Q': 'Q', 'B': 'bool', 'S': 'string', 'OQ': 'option Q', 'OZ': 'option Z', 'LS': 'list string',
-         'LZ': 'list Z'}         # [loop ties C06] LZ: a 1-d integer array / list of ints, as a value
+         'LZ': 'list Z',         # [loop ties C06] LZ: a 1-d integer array / list of ints, as a value
+         'EXC': 'bool'}          # [loop ties C15] EXC: NOT a Python value -- whether the statement guarded by a `try` raises the
+                                 # exception its handler catches (spec key `tries`, see try_stmt)
 
 
 COQ_RESERVED = {'end', 'match', 'with', 'in', 'let', 'fun', 'if', 'then', 'else', 'as', 'at', 'return', 'forall', 'exists',
@@ -1119,7 +1121,37 @@ class FnTranslator:
             return "(let '(%s) := %s in\n   %s)" % (', '.join(nms), whole, body)
         if isinstance(s, ast.For) and getattr(self, 'yield_types', None) and 'yield__' in env:
             return self.yield_only_for(s, rest, env, ret)          # [loop ties C06]
+        if isinstance(s, ast.Try):
+            return self.try_stmt(s, rest, env, ret)                # [loop ties C15]
         raise Refuse('%s: unsupported statement %s' % (self.rel, type(s).__name__))
+
+    def try_stmt(self, s, rest, env, ret):
+        """[loop ties C15] spec key `tries=[dict(first=<prefix of the guarded statement>, raises='ValueError', param=<name>)]`:
+            try: <ONE assignment whose value is a call>   except <E>: H   [else: L]        (no finally, no `as` name)
+        Whether the guarded call raises an exception the handler catches is an input of type EXC (the call is opaque).
+        Python: the call raises before anything is bound, H runs, the else clause is skipped; otherwise the statement
+        binds its targets, L runs.  So  try..; rest  =  if raised then [H; rest] else [stmt; L; rest].
+        An exception of another type leaves the function: an error path outside the translation (recorded)."""
+        decl = [t for t in (getattr(self, 'tries', None) or []) if len(s.body) == 1 and ast.unparse(s.body[0]).startswith(t['first'])]
+        if len(decl) != 1:
+            raise Refuse('%s: try statement that the spec does not declare (key `tries`)' % self.rel)
+        d = decl[0]
+        if s.finalbody or len(s.handlers) != 1 or s.handlers[0].name is not None or s.handlers[0].type is None:
+            raise Refuse('%s: try statement with finally / several handlers / a bare except / `as` name' % self.rel)
+        if ast.unparse(s.handlers[0].type) != d['raises']:
+            raise Refuse('%s: the handler catches %s, the spec declares %s' % (self.rel, ast.unparse(s.handlers[0].type), d['raises']))
+        st = s.body[0]
+        if not (isinstance(st, ast.Assign) and isinstance(st.value, ast.Call)):
+            raise Refuse('%s: the guarded statement is not one assignment from a call' % self.rel)
+        flag = env.get(d['param'], ('', ''))
+        if flag[1] != 'EXC':
+            raise Refuse('%s: %s is not a parameter of type EXC' % (self.rel, d['param']))
+        g = '%s raises something other than %s' % (ast.unparse(st.value), d['raises'])
+        if g not in self.guards:
+            self.guards.append(g)
+        then = self.block(self.desugar(list(s.handlers[0].body)) + rest, env, ret)
+        els = self.block(self.desugar([st] + list(s.orelse)) + rest, env, ret)
+        return '(if %s then %s\n   else %s)' % (flag[0], then, els)
 
     def yield_only_for(self, s, rest, env, ret):
         """[loop ties C06] an inner `for a, b in zip(X, Y):` / `for a in X:` over integer lists (LZ) whose body does nothing
@@ -1398,6 +1430,7 @@ class FnTranslator:
         self.slice_views = sp.get('slice_views')           # [loop ties C16] see yield_append__ in call()
         self.element = sp.get('element')             # [loop ties C07/C14] dict(index=<param key>, length=<param key>)
         self.attr_store_ok = tuple(sp.get('attr_stores', ()))
+        self.tries = sp.get('tries')                 # [loop ties C15] see try_stmt
         for nm in self.attr_store_ok:
             for x in ast.walk(fnode):
                 if isinstance(x, ast.Assign) and isinstance(x.value, ast.Name) and (
